@@ -143,14 +143,14 @@ the SRT, WebVTT, SSA and STL reader loops). With the tag off `verifEmit` is an e
 
 %s
 
-193 changes were written by sub-agents that saw only property texts and a scratch worktree: 39 "plausible refactoring"
-seeds in four batches, 96 mutation-testing style changes in three batches (four per source file or area, including the
-command-line tool), 36 mutants aimed at one property each and 22 mutants of functions no earlier round had touched. 190
-of them break a property as stated and all 190 are caught by the quick tier (the CLI mutants by C07, which drives the
+201 changes were written by sub-agents that saw only property texts and a scratch worktree: 47 "plausible refactoring"
+seeds in five batches, 96 mutation-testing style changes in three batches (four per source file or area, including the
+command-line tool), 36 mutants aimed at one property each and 22 mutants of functions no earlier round had touched. 198
+of them break a property as stated and all 198 are caught by the quick tier (the CLI mutants by C07, which drives the
 tool). Three are not flagged, and should not be: C06-c is an equivalent change (it only merges two runs with
 identical attributes); P6-2 changes the character-set designation through X/28 packets, which the statement of C06
 does not cover and the specification does not model; R1-2 changes a helper (`WebVTTTimestampMap.Offset`) that nothing
-in the library calls and no statement mentions. About fifty of the 190 were missed or barely caught when first run (or
+in the library calls and no statement mentions. About fifty of the 198 were missed or barely caught when first run (or
 would have been, judging from their description, and were pre-empted); every miss was answered by widening a
 *generator* or the *model* (never by loosening an oracle): new families (WebVTT N and K, TTML L and A, SSA I, teletext
 I and M), new rendering choices (per-row box patterns, comment-like and non-dialogue lines in SubStation files, inline
